@@ -281,7 +281,7 @@ def c03(tier, seed):
 
 
 def c04(tier, seed):
-    return c03_specs(tier, seed, [1, 2, 3, 4], "c04")
+    return c03_specs(tier, seed, [1, 2, 3, 4, 5], "c04")
 
 
 def c05_specs(tier, seed, edits, tag):
@@ -335,7 +335,12 @@ def c06(tier, seed):
     # registered: in the model group the generators are known multiples of one element, so the solver finds
     # scalar coincidences that make the verifier's challenge input equal (a false alarm in the model; in the
     # real group it needs a discrete-log relation between generators)
-    return c05_specs(tier, seed, [1, 2, 3, 4, 5], "c06") + bproof_specs(tier, seed, [3], "c06")
+    S = c05_specs(tier, seed, [1, 2, 3, 4, 5], "c06") + bproof_specs(tier, seed, [3], "c06")
+    for n in [80, 96, 111] + ([48, 79, 113, 127, 143] if tier == "thorough" else []):
+        for sk_, cs in one_suite(tier, seed, "c06m%d" % n):
+            S.append(Spec("c06_malformed_commitment_%s_len%d" % (sk_, n), "p05::malformed_commitment_refused::<%s, %d, 1>()" % (cs, n), 100, "G", "A",
+                          shape=dict(contract="blind_sign refuses malformed commitment", entry="blind_sign", suite=sk_, commitment_len=n, L=1), replay="op", features="fixedrand"))
+    return S
 
 
 def c07(tier, seed):
@@ -368,6 +373,8 @@ def c11(tier, seed):
         return out
     S += take(c01(tier, seed), lambda sp: "_L1_" in sp.name or "_L2_h0" in sp.name, "c01")
     S += take(c03(tier, seed), lambda sp: "_L1_d1" in sp.name or "_L2_d1" in sp.name, "c03")
+    # a plain proof presented to the blind verifier with L absent (edit 6)
+    S += take(c03_specs(tier, seed, [6], "c11x"), lambda sp: "_L1_" in sp.name or "_L2_d3" in sp.name or "_L0_" in sp.name, "x")
     S += take(c05_specs(tier, seed, [0], "c05"), lambda sp: True, "c05")
     S += take(bproof_specs(tier, seed, [0], "c05"), lambda sp: "_L1_M1" in sp.name or "_L0_M1" in sp.name, "c05")
     S += take(c10(tier, seed), lambda sp: "_gens_" in sp.name, "c10")
